@@ -28,7 +28,7 @@ def nshards(tier):
 
 def shard(i, n, tier, seed, rec, hb, check=CHECK, reader_of=reader_for):
     pvl = common.import_pvl()
-    per = 8000 if tier == "quick" else 120000
+    per = 8000 if tier == "quick" else 500000
     # dialects are interleaved, in an order that changes from case to case:
     # state shared between encoder/decoder classes of one process must not
     # leak from one dialect into the next
